@@ -113,11 +113,10 @@ func VerifyRedeem(ctx interface{}) error {
 	}
 
 	if context.Witnesses.IsETHWitness() {
+		// the job store is local to this node: a witness without the broadcast job has nothing to
+		// do, but the tracker, which is chain state, moves on as on every other node
 		bjob, err := context.JobStore.GetJob(tracker.GetJobID(ethereum.BusyBroadcasting))
-		if err != nil {
-			return errors.Wrap(err, "failed to get job")
-		}
-		if bjob.IsDone() && !bjob.IsFailed() {
+		if err == nil && bjob.IsDone() && !bjob.IsFailed() {
 			job := NewETHVerifyRedeem(tracker.TrackerName, ethereum.BusyFinalizing)
 			err := context.JobStore.SaveJob(job)
 			if err != nil {
@@ -139,11 +138,9 @@ func RedeemConfirmed(ctx interface{}) error {
 	tracker := context.Tracker
 	if context.Witnesses.IsETHWitness() {
 		if tracker.State == ethereum.BusyFinalizing {
+			// see VerifyRedeem: the job store is local to this node
 			bjob, err := context.JobStore.GetJob(tracker.GetJobID(ethereum.BusyBroadcasting))
-			if err != nil {
-				return errors.Wrap(err, "failed to get job")
-			}
-			if bjob.IsDone() && !bjob.IsFailed() {
+			if err == nil && bjob.IsDone() && !bjob.IsFailed() {
 				job := NewETHVerifyRedeem(tracker.TrackerName, ethereum.BusyFinalizing)
 				err := context.JobStore.SaveJob(job)
 				if err != nil {
